@@ -913,6 +913,17 @@ func (e *Env) call(x *ECall) TV {
 				e.fail("%v", err)
 			}
 			return TV{T: t, Ty: ty}
+		case "bytesof": // bytesof(s): the bytes of string s as an abstract byte string
+			v := e.eval(x.Args[0])
+			return TV{T: fmt.Sprintf("(s2c %s)", v.T), Ty: bytesT}
+		case "loc": // loc(name): the caller's local variable of that name (at call-site assertions, where callee parameter names shadow)
+			nm := typeText(x.Args[0])
+			if e.local != nil {
+				if tv, ok := e.local(nm); ok {
+					return tv
+				}
+			}
+			e.fail("no local variable %s here", nm)
 		case "acontent": // acontent(a, n): the first n bytes of array value a as an abstract byte string
 			a, n := e.eval(x.Args[0]), e.eval(x.Args[1])
 			t := fmt.Sprintf("(bcontent %s 0 %s)", a.T, n.T)
